@@ -140,7 +140,37 @@ def run(ck):
                 A = ["w " + hx(ks[i]) for i in range(rows)] + [f"gate 0 0 0 {hx(R-1)} 0 {hx(ks[i])} - 0 0 ${i} 0" for i in range(rows)]
                 Bc = ["w " + hx((ks[i] - r_at(pow(w, 4 + i, R))) % R) for i in range(rows)] + [f"gate 0 0 0 {hx(R-1)} 0 {hx(ks[i])} - 0 0 ${i} 0" for i in range(rows)]
                 add_case(f"every row off by a degree-{d} remainder (n={n}, padding={pad})", A, Bc)
+    # ---- the compiled permutation itself: read s_sigma_1..4 back from Prover::to_bytes(), evaluate them on the domain,
+    # decode the position labels k_j w^i: the cycles of sigma must be exactly the witness classes of the layout
+    # (what C05_sigma_rotates_classes / C05_copy_constraints_meaning assume about 'the compiled copy constraints')
+    sig_cases = []
+    for j in range(3 if quick else 12):
+        body = protocol.gadget_circuit(rng, size_hint=rng.randrange(0, 4))
+        if j == 0: body = ["w 5", "w 7", "gmul 1 0 0 0 0 0 - $0 $1 0 0", "pub 23", "rbits 8 $0", "rbits 11 $1", "lxor 2 $0 $1", "land 3 $0 $1", "trunc 9 $0", "decomp 6 $0", "gadd 0 1 1 0 0 0 - $3 $0 0 0", "bool 1", "sel 1 $0 $1"]
+        if j == 1:
+            from .. import jubjub as J_
+            ex = lambda P_: " ".join(hx(v_) for v_ in J_.ext(P_, 1))
+            P1, P2 = J_.random_subgroup_point(rng), J_.random_subgroup_point(rng)
+            body = ["w 5", f"mulgen $0 {ex(J_.GEN)}", f"pt {ex(P1)}", f"pt {ex(P2)}", "padd $3 $4 $5 $6", "w 1", "bool $9", "pselid $9 $3 $4"]
+        nm = f"SG{j}"; S.circuit(nm, body); S.cmd("compile", f"ksg{j}", "ppL" if j == 1 else "pp", "73", nm)
+        S.cmd("blobof", f"sgb{j}", "prover", f"ksg{j}")
+        sig_cases.append((nm, S.cmd("blobget", f"sgb{j}"), S.cmd("snapshot", nm)))
+        ck.count(("sigma", tuple(body)), kind="compiled sigma vs witness classes")
     res = protocol.run(S, "c05")
+    from .. import sigma as SG
+    for nm, bid, sid in sig_cases:
+        if not res[bid].startswith("OK"): raise BuildError("C05 sigma tie: no prover bytes for " + nm + ": " + res[bid][:80])
+        pv = bytes.fromhex(res[bid].split()[1]); snap_ = protocol.parse_snapshot(res[sid])
+        try:
+            n_, sg_ = SG.sigma_map(pv)
+        except ValueError as ex:
+            ck.violation(f"the compiled sigma polynomials are not position labels on the domain: {ex}", {"failing_input_found": True, "circuit": S.circuits[nm]}, key="sigma-labels"); continue
+        cy, wc = SG.cycles(n_, sg_), SG.witness_classes(snap_, n_)
+        if cy != wc:
+            extra = sorted(sorted(c) for c in (cy - wc))[:4]; missing = sorted(sorted(c) for c in (wc - cy))[:2]
+            ck.violation(f"the compiled permutation does not encode the copy constraints of the layout: {len(cy - wc)} cycles of sigma are not witness classes (e.g. cells {extra[0][:6] if extra else []} form a cycle of their own although the layout wires them to a witness used elsewhere)",
+                         {"failing_input_found": True, "circuit": S.circuits[nm], "cycles_not_classes": [[list(x) for x in c[:12]] for c in extra], "classes_not_cycles": [[list(x) for x in c[:12]] for c in missing],
+                          "meaning": "a prover may assign different values to cells of one witness that sigma does not link; C05_copy_constraints_meaning no longer describes the compiled keys"}, key="sigma-classes")
     ck.sample({"circuit": S.circuits["A0"], "instance": S.circuits["B1"][-2:]})
     jobs, meta = [], {}
     for (tag, a, b, c1, c2, c3, c4, c5) in cases:
@@ -177,7 +207,7 @@ def run(ck):
             ck.violation(f"prover returned a proof that fails verification ({tag}): {res[c3]}",
                          {"failing_input_found": True, "compiled_circuit": S.circuits[a], "instance": S.circuits[b]}, key="returned-bad-proof")
     return ck.finish(level="proof",
-        rule="layouts: random gadget mixes, one circuit of more than 2^12 gates (default pool and pool of 3), raw rows with random selector combinations (incl. 16-row full domains whose last row reads row 0), rows carrying a (zero / non-zero) public input with the arithmetic selector on or off, gadget ending at the domain end; instances: satisfying, one witness overridden, different wiring breaking a compiled copy constraint with every row satisfied, different wiring with equal values (still satisfying), wrong size; verdict of the extracted row evaluator on (compiled selectors, instance wires) + copy-class check vs Prover::prove; every returned proof is verified",
+        rule="layouts: random gadget mixes, one circuit of more than 2^12 gates (default pool and pool of 3), raw rows with random selector combinations (incl. 16-row full domains whose last row reads row 0), rows carrying a (zero / non-zero) public input with the arithmetic selector on or off, gadget ending at the domain end; instances: satisfying, one witness overridden, different wiring breaking a compiled copy constraint with every row satisfied, different wiring with equal values (still satisfying), wrong size; verdict of the extracted row evaluator on (compiled selectors, instance wires) + copy-class check vs Prover::prove; every returned proof is verified; the cycles of the compiled sigma (read back from the prover bytes) equal the witness classes of the layout",
         assumptions=["the degree test is exact (C05_degree_test) given that the 8n coset points are distinct and off the domain (checked by the kernels tie of C19, not proved for every n) and that the numerator has fewer than 8n coefficients",
                      "challenges avoid the bounded bad sets of the separation theorem"],
         checker_cmd=proofgate.CHECKER_CMD, trusted_base=proofgate.TRUSTED)
